@@ -406,3 +406,14 @@ Proof.
     - intros d [<-|[<-|[]]]; cbn; lia. }
   split; [exact W|]. split; [exact G|]. apply roundtrip_v_lemma; assumption.
 Qed.
+
+(* nothing the property lists is lost: two well-formed reports that serialize to the same message agree on every
+   field but sortOrder *)
+Theorem to_proto_injective_lemma : forall r1 r2, wf r1 -> wf r2 ->
+  to_proto_v repaired r1 = to_proto_v repaired r2 -> map forget_sort r1 = map forget_sort r2.
+Proof.
+  intros r1 r2 W1 W2 E.
+  destruct (report_roundtrip_repaired_lemma r1 W1) as (p1 & T1 & F1).
+  destruct (report_roundtrip_repaired_lemma r2 W2) as (p2 & T2 & F2).
+  rewrite T1, T2 in E. injection E as ->. rewrite F1 in F2. injection F2 as H. exact H.
+Qed.
